@@ -83,7 +83,8 @@ func (p *Packet) decodeEthernet() error {
 			return errShortEthernetHeaderLength
 		}
 
-		vlan := int(p.data[14])<<8 | int(p.data[15])
+		// VLAN identifier: the low 12 bits of the tag control information
+		vlan := (int(p.data[14])<<8 | int(p.data[15])) & 0x0fff
 		p.data[12], p.data[13] = p.data[16], p.data[17]
 		p.data = append(p.data[:14], p.data[18:]...)
 
